@@ -14,10 +14,13 @@ def _check(case):
 
     q = case["q"]
     qf = QuotientFilter(quotient=q, auto_expand=case["auto"])
+    twin = QuotientFilter(quotient=q, auto_expand=True)  # an independent filter used in between: objects share nothing
     other = None
     ref = set()
     for step, op in enumerate(case["ops"]):
         kind = op[0]
+        if step % 3 == 0:
+            core.call(twin.add_alt, (step * 2654435761) % (1 << 32), budget=BUDGET)
         if kind == "add":
             res = core.call(qf.add_alt, op[1], budget=BUDGET)
             if res[0] == "ok":
